@@ -2,6 +2,8 @@ import OtelVerif.Model.C02
 import OtelVerif.Model.C02Pinned
 import OtelVerif.Model.C02Check
 import OtelVerif.Lemmas.C02
+import OtelVerif.Lemmas.C02Live
+import OtelVerif.Lemmas.C02P
 /-!
 # C02 — sending queue: exactly-once hand-off, FIFO, bounded size, no lost wake-ups
 
@@ -191,8 +193,7 @@ theorem C02_cond_alone_never_blocks (s : CSt) :
     (∀ i, (s.ws i).ph = .wokenCtx → (cfire s (.relockCtx i)).isSome = true) := by
   refine ⟨rfl, rfl, ?_, ?_⟩ <;> intro i hi <;> simp [cfire, hi]
 
-/-- no goroutine can take a step of its own -/
-def Quiescent (k : Cfg) (s : St) : Prop := ∀ l, l.internal = true → fire k s l = none
+/- `Quiescent k s` (no goroutine can take a step of its own) is defined in `Lemmas/C02Live.lean`. -/
 
 /-- no lost wake-up: when everything has come to rest and the queue is empty, no producer is inside
 `cond.Wait` — for every schedule, including those in which contexts end while signals are in flight -/
@@ -314,6 +315,319 @@ legitimately waits behind a non-empty queue. -/
 def C02_deadlock_free_full : Prop :=
   ∀ (k : Cfg) (s : St), 0 ≤ k.cap → Reachable k s →
     ∃ n, ∀ ls, (∀ l ∈ ls, Label.internal l = true) → (runSched k s ls).isSome = true → ls.length ≤ n
+
+/-! ## liveness without temporal logic: termination of internal activity, and the drain -/
+
+theorem reachable_run {k : Cfg} {s s' : St} (ls : List Label) (hr : Reachable k s) (h : runSched k s ls = some s') :
+    Reachable k s' := by
+  induction ls generalizing s with
+  | nil => simp [runSched] at h; exact h ▸ hr
+  | cons l rest ih =>
+    simp only [runSched] at h
+    cases hf : fire k s l with
+    | none => simp [hf] at h
+    | some s1 => simp only [hf] at h; exact ih (reachable_step hr hf) h
+
+/-- `C02_deadlock_free_full` holds: from every reachable state the goroutines can take only boundedly many steps
+on their own (the bound is the explicit measure `Phi`: 6/5/4/3/1 per thread by phase, +1 per parked consumer) -/
+theorem C02_deadlock_free_full_holds : C02_deadlock_free_full := by
+  intro k s hk hr
+  obtain ⟨L, hc⟩ := covers_exists hr
+  exact ⟨Phi L s, fun ls hi hs => internal_run_bounded hk ls s hr hc hi hs⟩
+
+/-- the goroutines' own activity always comes to rest: some finite internal schedule reaches a quiescent state -/
+theorem C02_quiescence_reachable (hk : 0 ≤ k.cap) (hr : Reachable k s) :
+    ∃ ls s', (∀ l ∈ ls, Label.internal l = true) ∧ runSched k s ls = some s' ∧ Quiescent k s' := by
+  obtain ⟨L, hc⟩ := covers_exists hr
+  obtain ⟨ls, s', h1, h2, h3, _, _⟩ := exists_quiesce hk (Phi L s) s hr hc (Nat.le_refl _)
+  exact ⟨ls, s', h1, h2, h3⟩
+
+/-- settles the "one Signal per completion" observation: whenever a producer is still inside `cond.Wait` after
+everything has come to rest, some accepted request is still unfinished (`size > 0`), so a further completion —
+and with it a further `Signal` — is still to come.  No schedule leaves a producer blocked with no completion pending. -/
+theorem C02_blocked_implies_pending_completion (hk : 0 ≤ k.cap) (hr : Reachable k s) (hq : Quiescent k s)
+    (p : Nat) (hp : (s.ps p).ph.inCond) : 0 < s.size ∧ s.items ++ s.inflight ≠ [] := by
+  have hz : s.size ≠ 0 := fun h0 => C02_no_lost_wakeup hk hr hq h0 p hp
+  obtain ⟨h1, h2, _, _, _⟩ := C02_size hk hr
+  refine ⟨by omega, ?_⟩
+  intro he
+  rw [he] at h1
+  exact hz (by rw [h1]; rfl)
+
+theorem internal_drain (l : Label) (h : l.internal = true) : l.drain = true := by
+  cases l <;> simp [Label.internal] at h <;> rfl
+
+theorem tracked_run {k : Cfg} (hk : 0 ≤ k.cap) {s s' : St} (ls : List Label) (p : Nat) (hr : Reachable k s)
+    (hd : ∀ l ∈ ls, Label.drain l = true) (h : runSched k s ls = some s') (ht : Tracked s p) : Tracked s' p := by
+  induction ls generalizing s with
+  | nil => simp [runSched] at h; exact h ▸ ht
+  | cons l rest ih =>
+    simp only [runSched] at h
+    cases hf : fire k s l with
+    | none => simp [hf] at h
+    | some s1 =>
+      simp only [hf] at h
+      exact ih (reachable_step hr hf) (fun l' hl' => hd l' (List.mem_cons_of_mem _ hl')) h
+        (tracked_step (Inv.reachable hk hr).C (hd l (by simp)) hf ht)
+
+theorem drain_aux {k : Cfg} (hk : 0 ≤ k.cap) (L : List Nat) (n : Nat) (s : St) (hr : Reachable k s) (hc : Covers L s)
+    (hn : Omega L s ≤ n) :
+    ∃ ls s', (∀ l ∈ ls, Label.drain l = true) ∧ runSched k s ls = some s' ∧ ∀ p, ¬ (s'.ps p).ph.inCond := by
+  induction n generalizing s with
+  | zero =>
+    obtain ⟨ls, s1, h1, h2, h3, h4, h5⟩ := exists_quiesce hk (Phi L s) s hr hc (Nat.le_refl _)
+    have hr1 := reachable_run ls hr h2
+    refine ⟨ls, s1, fun l hl => internal_drain l (h1 l hl), h2, ?_⟩
+    have h0 : Omega L s1 = 0 := by omega
+    have hi : s1.items = [] := by
+      cases hi : s1.items with
+      | nil => rfl
+      | cons x t => simp [Omega, hi] at h0
+    have hf : s1.inflight = [] := by
+      cases hf : s1.inflight with
+      | nil => rfl
+      | cons x t => simp [Omega, hf] at h0
+    have hz : s1.size = 0 := by
+      have := (Inv.reachable hk hr1).Z.sizeEq
+      rw [hi, hf] at this
+      simpa [sumSz] using this
+    exact C02_no_lost_wakeup hk hr1 h3 hz
+  | succ n ih =>
+    obtain ⟨ls, s1, h1, h2, h3, h4, h5⟩ := exists_quiesce hk (Phi L s) s hr hc (Nat.le_refl _)
+    have hr1 := reachable_run ls hr h2
+    have hd1 : ∀ l ∈ ls, Label.drain l = true := fun l hl => internal_drain l (h1 l hl)
+    -- one environment step that makes the potential drop, then the induction hypothesis
+    have next : ∀ (l : Label) (s2 : St), l.drain = true → fire k s1 l = some s2 → Covers L s2 → Omega L s2 < Omega L s1 →
+        ∃ ls s', (∀ l ∈ ls, Label.drain l = true) ∧ runSched k s ls = some s' ∧ ∀ p, ¬ (s'.ps p).ph.inCond := by
+      intro l s2 hl hf hc2 hlt
+      obtain ⟨ls2, s', g1, g2, g3⟩ := ih s2 (reachable_step hr1 hf) hc2 (by omega)
+      refine ⟨ls ++ l :: ls2, s', ?_, ?_, g3⟩
+      · intro l' hl'
+        rcases List.mem_append.mp hl' with e | e
+        · exact hd1 l' e
+        · rcases List.mem_cons.mp e with e | e
+          · exact e ▸ hl
+          · exact g1 l' e
+      · rw [runSched_append, h2]
+        simp [runSched, hf, g2]
+    cases hfl : s1.inflight with
+    | cons x t =>
+      obtain ⟨id, el⟩ := x
+      have hl : s1.inflight.lookup id = some el := by simp [hfl, List.lookup]
+      obtain ⟨c1, c2⟩ := finish_measure (k := k) (e := 0) h4 hl
+      exact next (.complete id 0) _ rfl (by simp [fire, hl]) c1 c2
+    | nil =>
+      cases hit : s1.items with
+      | nil =>
+        have hz : s1.size = 0 := by
+          have := (Inv.reachable hk hr1).Z.sizeEq
+          rw [hit, hfl] at this
+          simpa [sumSz] using this
+        exact ⟨ls, s1, hd1, h2, C02_no_lost_wakeup hk hr1 h3 hz⟩
+      | cons x t =>
+        -- at rest with a queued item no consumer is parked; let consumer 0 read
+        have hcw : s1.cwait = [] := by
+          cases hcw : s1.cwait with
+          | nil => rfl
+          | cons c cs =>
+            have := h3 (.recheck c) rfl
+            obtain ⟨a, b⟩ := x
+            simp [fire, hcw, pop, hit] at this
+        obtain ⟨a, b⟩ := x
+        have hp : pop s1 = some { s1 with items := t, inflight := s1.inflight ++ [(a, b)], handed := s1.handed ++ [a] } := by
+          simp [pop, hit]
+        obtain ⟨c1, c2⟩ := pop_measure h4 hp
+        exact next (.read 0) _ rfl (by simp [fire, hcw, hp]) c1 c2
+
+/-- **the drain theorem** (existence form of "a blocked producer is released once earlier requests finish"): from
+every reachable state there is a finite schedule consisting only of the goroutines' own steps, consumer reads
+and completions — no new Offer, no cancellation, no shutdown — after which **no** producer is inside `cond.Wait`,
+and every producer that was waiting for space with a live context has been **enqueued** (not refused).
+What remains to be assumed for "eventually" in a real run is only fairness: the scheduler eventually runs every
+enabled goroutine step (weak fairness of internal labels, incl. `sync.Mutex` hand-over), and the consumers keep
+reading and completing what they were handed. -/
+theorem C02_drain_releases_all (hk : 0 ≤ k.cap) (hr : Reachable k s) :
+    ∃ ls s', (∀ l ∈ ls, Label.drain l = true) ∧ runSched k s ls = some s' ∧ (∀ p, ¬ (s'.ps p).ph.inCond) ∧
+      (∀ p, ((s.ps p).ph = .sel ∨ (s.ps p).ph = .wokenTok) → (s.ps p).canc = false → p ∈ s'.accepted) := by
+  obtain ⟨L, hc⟩ := covers_exists hr
+  obtain ⟨ls, s', h1, h2, h3⟩ := drain_aux hk L (Omega L s) s hr hc (Nat.le_refl _)
+  refine ⟨ls, s', h1, h2, h3, ?_⟩
+  intro p hp hcn
+  rcases tracked_run hk ls p hr h1 h2 (Or.inl ⟨hp, hcn⟩) with ⟨a, _⟩ | a
+  · rcases a with a | a
+    · exact absurd (Or.inl a) (h3 p)
+    · exact absurd (Or.inr (Or.inl a)) (h3 p)
+  · exact a
+
+/-! ## the persistent queue (`Model/C02P.lean`, `pfire`): same clauses, its own size bookkeeping -/
+
+theorem C02_persistent_fifo (hk : 0 ≤ k.cap) (hr : PReachable k s) : s.handed ++ s.items.map Prod.fst = s.accepted :=
+  (Invp.reachable hk hr).H.fifo
+
+theorem C02_persistent_exactly_once (hk : 0 ≤ k.cap) (hr : PReachable k s) :
+    s.handed.Nodup ∧ s.accepted.Nodup ∧
+    (∀ id, id ∈ s.accepted ↔ (id ∈ s.handed ∨ id ∈ s.items.map Prod.fst)) ∧
+    (∀ id ∈ s.handed, id ∉ s.items.map Prod.fst) ∧
+    (∀ id ∈ s.refused, id ∉ s.handed ∧ id ∉ s.items.map Prod.fst) := by
+  have h := (Invp.reachable hk hr).H
+  have hnd := h.accNodup
+  rw [← h.fifo] at hnd
+  refine ⟨h.handed_nodup, h.accNodup, ?_, ?_, ?_⟩
+  · intro id; rw [← h.fifo]; simp
+  · intro id hid hq
+    exact (List.nodup_append.mp hnd).2.2 id hid id hq rfl
+  · intro id hid
+    have := h.refAcc id hid
+    rw [← h.fifo] at this
+    simpa using this
+
+/-- persistent size: within `[0, cap]`, never more than the summed size of the accepted-but-unfinished requests
+(it is reset to 0 whenever the last queued item is read, and clamped at 0 in `onDone`), and the unfinished requests
+are exactly the queued and in-flight ones -/
+theorem C02_persistent_size (hk : 0 ≤ k.cap) (hr : PReachable k s) :
+    0 ≤ s.size ∧ s.size ≤ k.cap ∧ s.size ≤ sumSz (s.items ++ s.inflight) ∧
+    ((s.items ++ s.inflight).map Prod.fst).Nodup ∧
+    (∀ id, id ∈ (s.items ++ s.inflight).map Prod.fst ↔ (id ∈ s.accepted ∧ id ∉ s.finished)) := by
+  have hI := Invp.reachable hk hr
+  have h := hI.Z
+  have hH := hI.H
+  have hnd := hH.accNodup
+  rw [← hH.fifo] at hnd
+  have hfn := (h.hperm.nodup_iff).mp hH.handed_nodup
+  have hmem : ∀ id, id ∈ s.handed ↔ (id ∈ s.finished ∨ id ∈ s.inflight.map Prod.fst) := by
+    intro id; rw [h.hperm.mem_iff]; simp
+  refine ⟨h.nonneg, h.le, by rw [sumSz_append]; exact h.szLe, ?_, ?_⟩
+  · rw [List.map_append]
+    refine List.nodup_append.mpr ⟨(List.nodup_append.mp hnd).2.1, (List.nodup_append.mp hfn).2.1, ?_⟩
+    intro a ha b hb e
+    subst e
+    exact (List.nodup_append.mp hnd).2.2 a ((hmem a).mpr (Or.inr hb)) a ha rfl
+  · intro id
+    rw [List.map_append, List.mem_append, ← hH.fifo, List.mem_append]
+    constructor
+    · rintro (a | a)
+      · refine ⟨Or.inr a, fun hf => ?_⟩
+        exact (List.nodup_append.mp hnd).2.2 id ((hmem id).mpr (Or.inl hf)) id a rfl
+      · refine ⟨Or.inl ((hmem id).mpr (Or.inr a)), fun hf => ?_⟩
+        exact (List.nodup_append.mp hfn).2.2 id hf id a rfl
+    · rintro ⟨a | a, hnf⟩
+      · rcases (hmem id).mp a with b | b
+        · exact absurd b hnf
+        · exact Or.inr b
+      · exact Or.inl a
+
+theorem C02_persistent_size_zero_when_all_finished (hk : 0 ≤ k.cap) (hr : PReachable k s)
+    (hall : ∀ id ∈ s.accepted, id ∈ s.finished) : s.size = 0 := by
+  obtain ⟨h0, _, h1, _, h5⟩ := C02_persistent_size hk hr
+  have : s.items ++ s.inflight = [] := by
+    cases hl : s.items ++ s.inflight with
+    | nil => rfl
+    | cons x xs =>
+      have := (h5 x.1).mp (by rw [hl]; simp)
+      exact absurd (hall _ this.1) this.2
+  rw [this] at h1
+  simp [sumSz] at h1
+  omega
+
+/-- persistent refusal rule, exactly: "queue is full" ⇔ not blocking ∧ size+el > cap; "too large" ⇔ blocking ∧
+size+el > cap ∧ el > cap (the repair: such a request never waits); waits ⇔ blocking ∧ size+el > cap ∧ el ≤ cap;
+enqueued at once ⇔ size+el ≤ cap -/
+theorem C02_persistent_refusal_exact (hk : 0 ≤ k.cap) (hr : PReachable k s) (p : Nat) (el : Int) (s' : St)
+    (hf : pfire k s (.offer p el) = some s') :
+    ((s'.ps p).ph = .done .full ↔ (k.block = false ∧ s.size + el > k.cap)) ∧
+    ((s'.ps p).ph = .done .tooLarge ↔ (k.block = true ∧ s.size + el > k.cap ∧ el > k.cap)) ∧
+    ((s'.ps p).ph = .sel ↔ (k.block = true ∧ s.size + el > k.cap ∧ el ≤ k.cap)) ∧
+    (p ∈ s'.accepted ↔ s.size + el ≤ k.cap) := by
+  have hH := (Invp.reachable hk hr).H
+  simp only [pfire] at hf
+  split at hf
+  · rename_i hc
+    have hna : p ∉ s.accepted := (hH.open_not_acc (hc.1 ▸ Ph.open_idle)).1
+    cases hf
+    have hbf : ∀ b : Bool, ¬ b = true → b = false := by intro b hb; cases b <;> simp_all
+    unfold ptryAdd
+    split
+    · rename_i h3
+      split
+      · rename_i hb
+        split
+        · rename_i hbig
+          simp only [refuse, upd_same]
+          refine ⟨?_, ?_, ?_, ?_⟩
+          · simp [hb]
+          · simp; exact ⟨hb, by omega, by omega⟩
+          · simp <;> (intros; first | omega | simp_all)
+          · simp [hna]; omega
+        · rename_i hbig
+          simp only [register, upd_same]
+          refine ⟨?_, ?_, ?_, ?_⟩
+          · simp <;> (intros; first | omega | simp_all)
+          · simp <;> (intros; first | omega | simp_all)
+          · simp; exact ⟨hb, by omega, by omega⟩
+          · simp [hna]; omega
+      · rename_i hb
+        simp only [refuse, upd_same]
+        refine ⟨?_, ?_, ?_, ?_⟩
+        · simp; exact ⟨hbf _ hb, by omega⟩
+        · simp; intro a; exact absurd a hb
+        · simp <;> (intros; first | omega | simp_all)
+        · simp [hna]; omega
+    · rename_i h3
+      simp only [paccept, upd_same]
+      refine ⟨?_, ?_, ?_, ?_⟩
+      · simp; intro _; omega
+      · simp; intro _ _; omega
+      · simp <;> (intros; first | omega | simp_all)
+      · simp; omega
+  · cases hf
+
+/-- a request larger than the capacity never waits on the cond (contrast the pinned tree, where it waited forever) -/
+theorem C02_persistent_oversize_never_waits (hk : 0 ≤ k.cap) (hr : PReachable k s) (p : Nat)
+    (hp : (s.ps p).ph.inCond) : 0 < (s.ps p).el ∧ (s.ps p).el ≤ k.cap :=
+  let h := (Invp.reachable hk hr).C.elOk p hp
+  ⟨h.1, h.2.1⟩
+
+def PQuiescent (k : Cfg) (s : St) : Prop := ∀ l, Label.internal l = true → pfire k s l = none
+
+/-- persistent no-lost-wake-up: at rest, with nothing queued and nothing in flight (every accepted request
+finished), no producer is inside `cond.Wait`.  More generally a registered waiter at rest implies an unfinished
+request, whose `onDone` will signal. -/
+theorem C02_persistent_no_lost_wakeup (hk : 0 ≤ k.cap) (hr : PReachable k s) (hq : PQuiescent k s) :
+    (∀ p, (s.ps p).ph.inCond → s.items ≠ [] ∨ s.inflight ≠ []) ∧
+    (s.items = [] → s.inflight = [] → ∀ p, ¬ (s.ps p).ph.inCond) := by
+  have hI := Invp.reachable hk hr
+  have hnoTok : ∀ q, (s.ps q).ph ≠ .wokenTok := by
+    intro q hq'
+    have := hq (.relockTok q) rfl
+    simp [pfire, hq'] at this
+  have hnoCtx : ∀ q, (s.ps q).ph ≠ .wokenCtx := by
+    intro q hq'
+    have := hq (.relockCtx q) rfl
+    simp [pfire, hq'] at this
+  have hnoSig : ∀ q, (s.ps q).sig = false := by
+    intro q
+    cases hs : (s.ps q).sig with
+    | false => rfl
+    | true =>
+      rcases hI.C.sigPh q hs with a | a | a
+      · have := hq (.wakeTok q) rfl
+        simp [pfire, a, hs] at this
+      · exact absurd a (hnoTok q)
+      · exact absurd a (hnoCtx q)
+  have main : ∀ p, (s.ps p).ph.inCond → s.items ≠ [] ∨ s.inflight ≠ [] := by
+    intro p hp
+    rcases hp with a | a | a
+    · have hw : p ∈ s.waiters := (hI.C.wIff p).mpr ⟨Or.inl a, hnoSig p⟩
+      rcases hI.W (List.ne_nil_of_mem hw) with b | ⟨q, b⟩
+      · exact b
+      · rw [hnoSig q] at b; cases b
+    · exact absurd a (hnoTok p)
+    · exact absurd a (hnoCtx p)
+  refine ⟨main, ?_⟩
+  intro hi hf p hp
+  rcases main p hp with a | a
+  · exact a hi
+  · exact a hf
 
 /-! ## the pinned cond.go (before the fix commit) deadlocks -/
 
